@@ -56,7 +56,12 @@ fn apply<T: P>(inst: &mut Vec<T>, o: &Value) -> Option<Vec<Vec<usize>>> {
 }
 
 /// Replays one case; returns a description of the first disagreement with the specification.
-fn run_case<T: P>(c: &Value, ne: usize, cmp: &mut usize) -> Option<String> {
+/// `mode` chooses how the implementation is observed.  Observing representatives is itself a sequence of `find` calls
+/// that changes the concrete state, so the same history is replayed three ways: 0 = representatives are read before and
+/// after the last step in ascending order (needed for the "representative stays the same" clause); 1 = "cold": nothing
+/// is read before the last step, so the object is in exactly the state the history leaves it in, and afterwards the
+/// elements are read most-recently-used first; 2 = cold, descending order.
+fn run_case<T: P>(c: &Value, ne: usize, cmp: &mut usize, mode: u8) -> Option<String> {
     let ops = c["ops"].as_array().unwrap();
     let r = catch(|| {
         let mut inst: Vec<T> = vec![T::mk()];
@@ -64,9 +69,25 @@ fn run_case<T: P>(c: &Value, ne: usize, cmp: &mut usize) -> Option<String> {
             apply(&mut inst, o);
         }
         // representatives before the last step (observing them compresses paths: that is the point)
-        let before: Vec<Vec<usize>> = inst.iter().map(|p| (0..ne).map(|x| p.find_(x)).collect()).collect();
+        let before: Vec<Vec<usize>> = if mode == 0 { inst.iter().map(|p| (0..ne).map(|x| p.find_(x)).collect()).collect() } else { vec![] };
         let res = apply(&mut inst, &ops[ops.len() - 1]);
-        let after: Vec<Vec<usize>> = inst.iter().map(|p| (0..ne).map(|x| p.find_(x)).collect()).collect();
+        let order: Vec<usize> = match mode {
+            0 => (0..ne).collect(),
+            2 => (0..ne).rev().collect(),
+            _ => {
+                let mut o: Vec<usize> = vec![];
+                for op in ops.iter().rev() {
+                    let mut m: Vec<usize> = vec![];
+                    if let Some(q) = op["q"].as_array() { m.extend(q.iter().rev().map(|x| x.as_u64().unwrap() as usize)); }
+                    if op["op"] == "find" || op["op"] == "unite" { m.push(op["a"].as_u64().unwrap() as usize); }
+                    if op["op"] == "unite" { m.push(op["b"].as_u64().unwrap() as usize); }
+                    for x in m { if x < ne && !o.contains(&x) { o.push(x); } }
+                }
+                for x in 0..ne { if !o.contains(&x) { o.push(x); } }
+                o
+            }
+        };
+        let after: Vec<Vec<usize>> = inst.iter().map(|p| { let mut r = vec![0; ne]; for &x in &order { r[x] = p.find_(x); } r }).collect();
         (before, res, after)
     });
     let (before, res, after) = match r {
@@ -116,18 +137,20 @@ pub fn replay(args: &[String]) {
         let has_union = ops.iter().any(|o| o["op"] == "unite" && o["a"] != o["b"]);
         let has_clone = ops.iter().any(|o| o["op"] == "clone");
         if has_union && has_clone { nontrivial += 1; }
-        for (kind, r) in [
-            ("IntPartition", run_case::<IntPartition>(&c, ne, &mut cmp)),
-            ("Partition<usize>", run_case::<Partition<usize>>(&c, ne, &mut cmp)),
-            ("Partition<String>", run_case::<Partition<String>>(&c, ne, &mut cmp)),
-        ] {
-            if let Some(msg) = r {
-                if bad.len() < 5 { bad.push(json!({"type": kind, "why": msg, "case": c})); }
+        for mode in 0..3u8 {
+            for (kind, r) in [
+                ("IntPartition", run_case::<IntPartition>(&c, ne, &mut cmp, mode)),
+                ("Partition<usize>", run_case::<Partition<usize>>(&c, ne, &mut cmp, mode)),
+                ("Partition<String>", run_case::<Partition<String>>(&c, ne, &mut cmp, mode)),
+            ] {
+                if let Some(msg) = r {
+                    if bad.len() < 5 { bad.push(json!({"type": kind, "observation": mode, "why": msg, "case": c})); }
+                }
             }
         }
         if ncases == 1000 || sample.is_none() { sample = Some(c); }
     });
-    println!("{}", json!({"cases": ncases, "executions": ncases * 3, "comparisons": cmp,
+    println!("{}", json!({"cases": ncases, "executions": ncases * 9, "comparisons": cmp,
                           "nontrivial": nontrivial, "mismatches": bad, "sample": sample}));
 }
 
@@ -135,10 +158,15 @@ pub fn replay(args: &[String]) {
 fn drive_one<T: P>(sink: &mut Sink, kind: &str, ne: usize, len: usize, rng: &mut StdRng) {
     sink.emit(json!({"ev": "uf", "op": "reset", "n": ne, "kind": kind}));
     let mut inst: Vec<T> = vec![T::mk()];
+    // locality: half of the time the operands are among the three most recently used elements, so that patterns such as
+    // find(e); unite(..); find(e) with nothing in between are frequent (an implementation may cache its last answer)
+    let mut recent: Vec<usize> = vec![];
     for _ in 0..len {
         let p = rng.gen_range(0..inst.len());
-        let a = rng.gen_range(0..ne);
-        let b = rng.gen_range(0..ne);
+        let pick = |rng: &mut StdRng, recent: &Vec<usize>| if !recent.is_empty() && rng.gen_bool(0.5) { recent[rng.gen_range(0..recent.len())] } else { rng.gen_range(0..ne) };
+        let a = pick(rng, &recent);
+        let b = pick(rng, &recent);
+        recent.retain(|&x| x != a); recent.insert(0, a); recent.truncate(3);
         let roll = rng.gen_range(0..100);
         let ev = if roll < 35 {
             match catch(|| inst[p].unite_(a, b)) {
@@ -175,6 +203,8 @@ pub fn drive(args: &[String]) {
     let mut sink = Sink::create(&out);
     let mut rng = rng(20);
     for h in 0..hist {
+        // every second round of the three types works on a small universe (6 elements): dense interaction
+        let ne = if (h / 3) % 2 == 1 { ne.min(6) } else { ne };
         match h % 3 {
             0 => drive_one::<IntPartition>(&mut sink, "IntPartition", ne, len, &mut rng),
             1 => drive_one::<Partition<usize>>(&mut sink, "Partition<usize>", ne, len, &mut rng),
